@@ -178,7 +178,11 @@ def tree_size(t: Any) -> int:
 def case_tree(desc: dict[str, Any], t: Any) -> tuple[dict[str, Any], list[str], list[str]]:
 	from rogw.tranp.implements.syntax.lark.entry import EntryOfLark
 	ops = [f'tree\t{lark_sexp(t)}', 'view', 'dumpj', 'rt']
-	real = [f'ok {tree_size(t)}', show_view(EntryOfLark(t)), real_dumpj(t), real_rt(t)]
+	try:
+		shown = show_view(EntryOfLark(t))
+	except Exception as e:  # noqa: BLE001 - the view of a tree the harness built or lark parsed must be readable
+		shown = exc_enum(e)
+	real = [f'ok {tree_size(t)}', shown, real_dumpj(t), real_rt(t)]
 	return desc, ops, real
 
 
@@ -701,7 +705,11 @@ def search_views(ctx: Ctx) -> SearchResult:
 	seen = set()
 	for label, t in diskproj.bounded(trees_, *diskproj.budgets(ctx), label=lambda x: x[0]):
 		res.cases += 1
-		fresh = view_tuple(EntryOfLark(t))
+		try:
+			fresh = view_tuple(EntryOfLark(t))
+		except Exception as e:  # noqa: BLE001
+			res.findings.append(Finding(key=f'view-raises:{exc_enum(e)}', what=f'reading the Entry view of {label} raises {exc_enum(e)}', replay={'tree': label, 'sexp': lark_sexp(t)[:20000]}))
+			continue
 		seen.add(hash(fresh))
 		try:
 			restored = view_tuple(store_load(t))
